@@ -316,6 +316,9 @@ func model(sc Scenario) expectation {
 			if !valid {
 				ex.filtered = true
 			}
+			if _, known := extMap[ext(clean)]; f.sync && valid && mimetype == "" && !known {
+				valid = false // --sync: "copy all files ... and minify when filetype matches", also a file that is named directly
+			}
 			if valid || f.sync {
 				if mimetype == "" && !f.sync {
 					if _, ok := extMap[ext(clean)]; !ok {
@@ -867,6 +870,11 @@ func genFiles(t *rapid.T) []File {
 			files = append(files, File{Path: p + ".bak", Content: "PRECIOUS BACKUP of " + name + "\n", Mode: 0o644})
 		}
 	}
+	// a dangling symbolic link in a directory now and then: it is left out, everything else is processed
+	if rapid.IntRange(0, 9).Draw(t, "dangling") == 0 && seen["src"] && !seen["src/dangling.css"] {
+		seen["src/dangling.css"] = true
+		files = append(files, File{Path: "src/dangling.css", Link: "nowhere.css"})
+	}
 	// a symlink to a file now and then
 	if rapid.IntRange(0, 5).Draw(t, "symlink") == 0 {
 		var regs []File
@@ -1014,6 +1022,14 @@ func genScenario(t *rapid.T) Scenario {
 		args = append(args, "-r", "--sync")
 		if rapid.IntRange(0, 3).Draw(t, "all") == 0 {
 			args = append(args, "-a")
+		}
+		if rapid.IntRange(0, 4).Draw(t, "syncfiles") == 0 && len(regs) > 0 {
+			// files named one by one: those without a minifier are copied as well
+			args = []string{"--sync", "-o", "mirror/"}
+			for i, k := 0, rapid.IntRange(1, 3).Draw(t, "nsyncfiles"); i < k; i++ {
+				args = append(args, pick("syncfile", regs))
+			}
+			break
 		}
 		switch rapid.IntRange(0, 5).Draw(t, "syncdst") {
 		case 0:
